@@ -22,14 +22,14 @@ package owa
 //@   loop 1 invariant [none_before] forall j int :: 0 <= j && j < iter ==> (*o.Weights)[j].Id != criterion.Id
 
 //@ func (*OwaBiasListener).OnCriteriaRemoved
-//@   property C07 C15
+//@   property C07 C15 C03
 //@   nopanic
 //@   refines model.BiasListener.OnCriteriaRemoved with validParams=owaValid, coversId=owaCovers
 //@   loop 1 invariant [ctx] fresh(newWeights) && len(newWeights) == len(*leftCriteria)
 //@   loop 1 invariant [kept] forall k int :: 0 <= k && k < iter ==> newWeights[k].Id == (*leftCriteria)[k].Id
 
 //@ func (*OwaBiasListener).OnCriterionAdded
-//@   property C07 C18
+//@   property C07 C18 C03
 //@   fnparam generator ensures 0.0 <= result && result < 1.0
 //@   refines model.BiasListener.OnCriterionAdded with validParams=owaValid, coversId=owaCovers, accepts=owaAccepts, acceptsAny=owaAcceptsAny
 //@   ensures [returns_single_weight] typeis(result, model.WeightType) && criterion.Id in result.(model.WeightType).Weights
@@ -62,7 +62,7 @@ package owa
 //@   ensures [sorted] forall i int, j int :: 0 <= i && i < j && j < len(*result.Weights) ==> (*result.Weights)[i].Weight <= (*result.Weights)[j].Weight
 
 //@ func (*OwaBiasListener).Merge
-//@   property C07 C18
+//@   property C07 C18 C03
 //@   refines model.BiasListener.Merge with validParams=owaValid, coversId=owaCovers, accepts=owaAccepts, acceptsAny=owaAcceptsAny
 //@   loop 1 invariant [converted] forall q string :: seen(q) ==> exists j int :: 0 <= j && j < len(added) && added[j].Id == q
 //@   loop 1 invariant [ctx] typeis(addition, model.WeightType) && !typeis(addition, owaParams) && fresh(added) && typeis(params, owaParams) && params.(owaParams).Weights != nil
